@@ -109,11 +109,24 @@ T_Sync ==
     /\ Advance
     /\ UNCHANGED <<vdisk, vcap, vlist, vfiles, vfinds, vnext, vlock, vpc, vfr, vret, vlast, vclosed, tpend, tkind>>
 
+\* the Rust API's listing of a writable archive just before a listing call of a single-thread history: names
+\* obtained through the C API must equal it (when wow-mpq refreshes the read-only view behind a MutableArchive is
+\* wow-mpq's business)
+T_List ==
+    /\ Ev.ev = "List"
+    /\ IF Ev.h \in DOMAIN varch
+       THEN /\ varch' = [varch EXCEPT ![Ev.h].lst = Ev.rl]
+            /\ IF varch[Ev.h].lst = Ev.rl THEN TRUE
+               ELSE PrintT(<<"DRIFT", tl, "Rust API listing of the writable archive differs from the modelled one">>)
+       ELSE UNCHANGED varch
+    /\ Advance
+    /\ UNCHANGED <<vdisk, vcap, vlist, vfiles, vfinds, vnext, vlock, vpc, vfr, vret, vlast, vclosed, tpend, tkind>>
+
 T_Step == /\ tl <= Len(Rec)
           /\ \E t \in Threads : tpend[t] /\ vpc[t] # "Idle" /\ Step(t)
           /\ UNCHANGED <<tl, tpend, tkind>>
 
-TNext == \/ (tl <= Len(Rec) /\ (T_Reset \/ T_Inv \/ T_Ret \/ T_RetBad \/ T_Sync))
+TNext == \/ (tl <= Len(Rec) /\ (T_Reset \/ T_Inv \/ T_Ret \/ T_RetBad \/ T_Sync \/ T_List))
          \/ T_Step
 
 ASSUME TLCSet(1, 1)
